@@ -34,6 +34,8 @@ def main(run):
         "index maps of the operation are certified by the Lean model: svecsInvariantOk, svdev), three zero "
         "eigenvalues at Gamma (sum-rule fc), eigenvalues and matrices x s/t after fc*s and Phonopy.masses = t*masses; "
         "tolerance 1e-8*||D||. correspondence: a sample of cases against the Lean model (the full correspondence is C02's). "
+        "Additionally wurtzite / hcp with fractional coordinates rounded to six decimals (noise inside symprec) and long-range "
+        "pair force constants of the ideal sites: spectra of q and Rq agree to 1e-7*||D||. "
         "Non-trivial = supercell larger than the primitive cell, q not Gamma (except the acoustic clause), matrix non-zero.")
     run.cov["trusted_base"] = [
         "Lean 4.33 kernel; Mathlib v4.33; axioms per theorem in coverage.theorems",
@@ -335,6 +337,55 @@ def main(run):
     common.switch_variant("ser")
     oracle_pass("ser")
     common.switch_variant("omp")
+
+    # ------------------------------------------------------------------ coordinates with noise inside symprec
+    # hexagonal cells whose fractional coordinates are written with six decimals (0.333333 / 0.666667: ~1e-6 Angstrom
+    # off the ideal sites, a factor >= 2 inside the default symprec = 1e-5).  Force constants: pair potential on the
+    # IDEAL sites (full symmetry, any range: periodic-image sums), supercells n x n x m that keep the point group, so
+    # the spectrum at Rq must equal the spectrum at q (observed on the unchanged tree: 1e-15 ||D||; tolerance 1e-7 ||D||; images on the
+    # supercell Wigner-Seitz boundary must keep their multiplicity).
+    from phonopy.structure.atoms import PhonopyAtoms
+
+    noisy_smats = [np.diag(d) for d in ((2, 2, 1), (2, 2, 2), (3, 3, 2))] + ([np.diag(d) for d in ((4, 4, 2), (4, 4, 1), (2, 2, 3))] if thorough else [])
+    for name in ("wurtzite", "hcp"):
+        ideal, _cen = U.get_cell(name)
+        for decimals in ((6,) if not thorough else (6, 7)):
+            noisy = PhonopyAtoms(cell=ideal.cell, symbols=ideal.symbols, scaled_positions=np.round(ideal.scaled_positions, decimals))
+            for smat in noisy_smats:
+                ph_i = Phonopy(ideal, supercell_matrix=smat, primitive_matrix="P", log_level=0)
+                ph_n = Phonopy(noisy, supercell_matrix=smat, primitive_matrix="P", log_level=0)
+                info = dict(cell=name, positions_rounded_to_decimals=decimals, smat=smat.tolist(), pmat="P",
+                            n_satom=len(ph_n.supercell), n_patom=len(ph_n.primitive))
+                rops = ph_n.primitive_symmetry.reciprocal_operations
+                if len(rops) != len(ph_i.primitive_symmetry.reciprocal_operations):
+                    run.count("noisy cell: symmetry search finds fewer operations", section="oracle")
+                    continue
+                minv = gen.min_lattice_vector(ph_i.supercell.cell)
+                cutoff = minv * rng.uniform(0.75, 1.1)
+                kfun, kdesc = U.make_kfun(rng)
+                fc = gen.pair_fc(ph_i.supercell, cutoff, kfun=kfun, images=U.images_needed(ph_i.supercell.cell, cutoff))
+                info.update(cutoff=float(cutoff), kfun=kdesc)
+                ph_n.force_constants = fc
+                floor = float(np.abs(fc).max()) / float(min(ph_n.primitive.masses))
+                for _ in range(2):
+                    qq = np.array([rng.uniform(-0.5, 0.5) for _ in range(3)])
+                    DR, FR = dyn(ph_n, [qq] + [r @ qq for r in rops])
+                    nd = norm(DR[0], floor)
+                    e0 = np.linalg.eigvalsh((DR[0] + DR[0].conj().T) / 2)
+                    worst = 0.0
+                    for r, dr in zip(rops, DR[1:]):
+                        er = np.linalg.eigvalsh((dr + dr.conj().T) / 2)
+                        dev = float(np.abs(er - e0).max())
+                        worst = max(worst, dev)
+                        if dev > 1e-7 * nd:
+                            run.violation("Phonopy.run_qpoints", "rotation/noisy-coordinates",
+                                          "spectrum at Rq differs from spectrum at q by %.3g (||D|| = %.3g) for coordinates rounded to %d decimals"
+                                          % (dev, nd, decimals), dict(info, q=list(map(float, qq)), R=np.array(r).tolist()))
+                    run.cov["oracle"]["noisy coordinates: worst spectrum deviation / ||D||"] = max(
+                        run.cov["oracle"].get("noisy coordinates: worst spectrum deviation / ||D||", 0.0), worst / nd)
+                    run.count("rotation pairs, coordinates with noise inside symprec", len(rops), section="oracle")
+                    run.case(("noisy", name, decimals, smat.tolist(), info["cutoff"], tuple(map(float, qq))), nontrivial=True)
+                run.count("noisy-coordinate cells")
 
     # ------------------------------------------------------------------ correspondence sample (model <-> code)
     small = [c for c in cases if c["info"]["n_satom"] * c["info"]["n_patom"] <= 64][: (10 if thorough else 4)]
